@@ -90,7 +90,7 @@ def gen_sessions(rng, ex, jnp, n_sessions, sizes, max_len=5):
         nl = 0
         for _ in range(int(rng.integers(2, max_len + 1))):
             nf = nyq_free(sp, N)
-            ops = ["filter", "addmode", "advect", "advectn", "forced", "poisson", "resample", "spectrum", "metric"]
+            ops = ["filter", "addmode", "advect", "advectn", "forced", "poisson", "resample", "spectrum", "metric", "coefs"]
             if C == 1:
                 ops += ["derive"]
             if nl < 2:
@@ -150,6 +150,27 @@ def gen_sessions(rng, ex, jnp, n_sessions, sizes, max_len=5):
                         evs.append(dict(e, unrat=True))          # the machine decides whether its own value has such a denominator
                         break
                     e["val"] = [[x.numerator, x.denominator] for x in r]
+                elif op == "coefs":
+                    val = np.asarray(ex.spectral.get_fourier_coefficients(ju, round=None))
+                    top = max(1.0, float(np.max(np.abs(val))))
+                    chans, state = [], "ok"
+                    for c in range(val.shape[0]):
+                        ch = []
+                        for idx in zip(*np.nonzero(np.abs(val[c]) > 1e-9 * top)):
+                            re, im = _rat(val[c][idx].real, 1e-12 * top), _rat(val[c][idx].imag, 1e-12 * top)
+                            if re is AMBIGUOUS or im is AMBIGUOUS:
+                                state = "ambiguous"
+                            elif re is None or im is None:
+                                state = "unrat" if state == "ok" else state
+                            else:
+                                ch.append([[int(i) for i in idx], re.numerator, re.denominator, im.numerator, im.denominator])
+                        chans.append(ch)
+                    if state == "ambiguous":
+                        break
+                    if state == "unrat":
+                        evs.append(dict(e, unrat=True))
+                        break
+                    e["val"] = chans
                 elif op == "spectrum":
                     val = np.asarray(ex.get_spectrum(ju, power=True))
                     r = [[_rat(v, 1e-12 * max(1.0, float(np.max(val)))) for v in ch] for ch in val]
